@@ -81,6 +81,11 @@ fn concretise(c: &Value, rng: &mut Rng) -> Opts {
 				(std::net::Ipv6Addr::from(a).to_string(), Some(b))
 			},
 			t if t.starts_with("long-nonascii-") => (long_bad(t), None),
+			// characters beyond U+00FF whose low octet alone would be an ASCII letter: l-stroke (0x142), A-macron (0x100), a CJK
+			// character (0x672c), an emoji (0x1f600)
+			"nonascii-low-octet-1" => ("\u{142}.example".to_string(), None),
+			"nonascii-low-octet-2" => ("host-\u{100}\u{672c}.example".to_string(), None),
+			"nonascii-low-octet-3" => ("\u{1f600}".to_string(), None),
 			_ => ("b\u{fc}cher.example".to_string(), None),
 		})
 		.collect();
